@@ -232,16 +232,16 @@ Proof. cbv zeta. repeat split; vm_compute; discriminate || reflexivity. Qed.
 (* 4. Glynn's formula = permanent, bounded size, symbolic entries        *)
 
 (* the Gray-code loop of fast_glynn_perm returns the permanent of EVERY rational n x n matrix,
-   n <= 4 (proved on symbolic entries by field) *)
-Theorem C02_fast_glynn_eq_perm_le4_bounded : forall n M, (1 <= n <= 4)%nat -> square n M ->
+   n <= 6 (proved on symbolic entries by field) *)
+Theorem C02_fast_glynn_eq_perm_le6_bounded : forall n M, (1 <= n <= 6)%nat -> square n M ->
   exists p, fast_glynn_perm M = Some p /\ p == perm n (of_lists M).
-Proof. exact fast_glynn_eq_perm_le4. Qed.
-Print Assumptions C02_fast_glynn_eq_perm_le4_bounded.
+Proof. exact fast_glynn_eq_perm_le6. Qed.
+Print Assumptions C02_fast_glynn_eq_perm_le6_bounded.
 
-(* Glynn's formula as the plain sum over sign vectors *)
-Theorem C02_glynn_plain_eq_perm_le4_bounded : forall n M, (n <= 4)%nat -> glynn_plain n M == perm n M.
-Proof. exact glynn_plain_eq_perm_le4. Qed.
-Print Assumptions C02_glynn_plain_eq_perm_le4_bounded.
+(* Glynn's formula as the plain sum over sign vectors, n <= 5 *)
+Theorem C02_glynn_plain_eq_perm_le5_bounded : forall n M, (n <= 5)%nat -> glynn_plain n M == perm n M.
+Proof. exact glynn_plain_eq_perm_le5. Qed.
+Print Assumptions C02_glynn_plain_eq_perm_le5_bounded.
 
 Example C02_glynn_example :
   square 3 [[3; 2; 1]; [5; 4; 1]; [4; 3; 2]] /\ fast_glynn_perm [[3; 2; 1]; [5; 4; 1]; [4; 3; 2]] = Some 92.
